@@ -71,6 +71,7 @@ type fakeRegistry struct {
 	// faults on the referrers tag schema's index maintenance (not retried by the client: 4xx)
 	denyIndexDelete  bool // DELETE of an image index is refused with 405
 	failIndexPutOnce bool // the next PUT under a sha256-<hex> referrers tag is refused with 403
+	failIndexGetOnce bool // the next GET of a sha256-<hex> referrers tag is refused with 403
 	corrupt          func(w http.ResponseWriter, r *http.Request) bool
 	hook             func(r *http.Request)
 	served           [][]string // pages served by the listing endpoints, in order
@@ -543,6 +544,11 @@ func (f *fakeRegistry) serveManifest(w http.ResponseWriter, r *http.Request, nam
 	}
 	switch r.Method {
 	case http.MethodHead, http.MethodGet:
+		if f.failIndexGetOnce && r.Method == http.MethodGet && strings.HasPrefix(ref, "sha256-") {
+			f.failIndexGetOnce = false
+			writeErr(w, 403, "DENIED")
+			return
+		}
 		dg, m, ok := resolve()
 		if !ok {
 			writeErr(w, 404, "MANIFEST_UNKNOWN")
